@@ -12,14 +12,15 @@ from vlib import core
 
 MON = os.path.join(core.VERIF, "mon")
 SRC = os.path.join(MON, "c18_defs.cpp")
-NPARTS = 8
+NPARTS = 16
 TYPES = ("float", "double", "long double")
 TYPE_IDX = {"float": 0, "double": 1, "long double": 2}
 MIN_ROWS = 40
 K = 4.0
 
 # "... required from 'void row(...) [with T = float; int I = 119; OutQ = ..."
-_ROW_FRAME = re.compile(r"required from 'void row\([^\n]*?\[with T = (float|double|long double); int I = (\d+);")
+# (g++ prints ASCII or typographic quotes depending on the locale)
+_ROW_FRAME = re.compile(r"required from \S?void row\([^\n]*?\[with T = (float|double|long double); int I = (\d+);")
 
 
 def _target(flavour, disabled):
@@ -61,7 +62,7 @@ def _failing_pairs(stderr):
     block = []
     for line in (stderr or "").splitlines():
         block.append(line)
-        if " error: " in line:
+        if " error: " in line or " error:" in line:
             text = "\n".join(block)
             for t, i in _ROW_FRAME.findall(text):
                 found.setdefault((int(i), t), line.strip()[:400])
